@@ -34,6 +34,10 @@ SPEC_LINES = [
     "mkdir -p sub_{k} && touch sub_{k}/made",
     "cat <<EOF >> {out}\nheredoc {k}\nEOF",
     "if true; then echo branch >> {out}; fi",
+    # shell variables named like scheduler options, and brace / percent tokens a template engine might eat
+    "cores={k}; echo \"threads ${{cores}} ${{memory:-none}} ${{queue:-q}}\" >> {out}",
+    "echo '{{0}} {{1}} {{job_name}} {{std_out}} {{cores}}' >> {out}",
+    "echo \"100% %s %d %(name)s\" >> {out}",
 ]
 FAIL_LINES = ["false", "cat no-such-file-{k}", "exit 3", "(exit 7)", "ls /nonexistent-{k} > /dev/null"]
 
